@@ -1,2 +1,239 @@
+"""contracts.nodes_machine -- Machine._push_item, Machine.worker, Machine.behaviour"""
+import ast
+import re
+import z3
+from pyvc import values as V
+from pyvc import logic
+from pyvc.logic import Forall, Exists
+from pyvc.contract import FnContract, Def, Clause, ExcCase, Structural, _fresh_like
+from pyvc.execute import VTimeout
+from pyvc.values import Num, VObj, VBool, VStr, VOpaque, NONE, SList, Unsupported, VDyn, VOpt
+from contracts.nodes_proc import sel, sc, tokens_consumed_clauses, put_count, PUT, GET, store_of_edge, oracle
+from contracts.nodes_sink import ProcLoop, CancelLoop
+from contracts.nodes_sl import FrameLoop, MIRROR, TT
+from contracts.nodes_source import mk_push_item, edges_assumptions, selection_ready, ScanLoop, mk_reset
+
+ACC_FIELDS = tuple(TT + k for k in MIRROR) + tuple(MIRROR.values()) + (
+    TT + "SETUP_STATE", "total_time_setup", "stats.last_state_change_time", "state_rep", "num_workers",
+    "time_last_occupancy_change", "time_per_work_occupancy", "worker_thread_list",
+    "per_thread_total_time_in_blocked_state", "per_thread_total_time_in_processing_state")
+
+
+def _n():
+    return logic.fresh("n").decl().name().split("!")[1]
+
+
+def cur_ordinal(st):
+    return sorted((k for k in st.loc if re.match(r"__i\d+$", k)), key=lambda k: int(k[3:]))[-1]
+
+
+class IndexMatchLoop:
+    """`for i in range(len(self.in_edges)): if <chosen_event.resourcename is the store of in_edges[i]>: edge_index_to_print = i`
+    after k rounds edge_index_to_print is the position of the chosen token's edge if that position is < k, else None."""
+    variant = None
+    props = ("C15",)
+
+    def __init__(self, fam_field):
+        self.fam_field = fam_field
+
+    def havoc(self, ex, st, node, ordinal):
+        tag = "lh%s" % _n()
+        st.loc["__i%d" % ordinal] = Num(z3.Int(tag + ".i"))
+        logic.REG.index_consts.add(tag + ".i")
+        st.loc["i"] = None
+        st.loc["edge_index_to_print"] = VOpt(z3.Bool(tag + ".none"), Num(z3.Int(tag + ".idx")))
+
+    def inv(self, ex, entry, st, mode):
+        i = st.loc[cur_ordinal(st)].t
+        edges = st.f["in_edges"].val
+        chosen = st.f["chosen_event"].val.t
+        rn = sel(st, "resourcename", chosen)
+        eip = st.loc["edge_index_to_print"]
+        # position of the chosen token in its family = index of its edge
+        fam = ex.deref(st.f[self.fam_field], st)
+        base = fam.at(z3.IntVal(0)).t
+        p = chosen - base
+        return [("index-range", z3.And(0 <= i, i <= edges.len)),
+                ("chosen-is-family-member", z3.And(0 <= p, p < edges.len, rn == store_of_edge(st, edges.at(p).t))),
+                ("match-found-iff-passed", z3.If(p < i, z3.And(z3.Not(eip.isnone), eip.val.t == p), eip.isnone))]
+
+
 def install(lib):
-    pass
+    C = lib.contracts
+    C["Machine"]["_push_item"] = mk_push_item(lib, "Machine", False)
+    C["Machine"]["reset"] = mk_reset(lib, "Machine", ("in", "out"), extra_none=("processing_delay",))
+
+    shared = ACC_FIELDS
+
+    def rely(st0, st1):
+        out = []
+        for nm, cl, props in lib.invariant("Machine", st1, side="assume"):
+            out.append((nm, cl))
+        out.append(("threads-within-capacity", st1.f["worker_thread_list"].len <= st1.f["work_capacity"].t))
+        out.append(("len-nonneg", st1.f["worker_thread_list"].len >= 0))
+        out.append(("hist-len", st1.f["time_per_work_occupancy"].len >= 0))
+        out += running(st1)
+        return out
+
+    def running(st):
+        """facts about a machine that has finished its set-up and has at least one live worker (this one)"""
+        rep, last = st.f["state_rep"], st.f["stats.last_state_change_time"]
+        return [("machine-is-past-set-up", z3.And(z3.Not(rep.isnone), rep.val.items[0].t >= 0, rep.val.items[1].t >= 0,
+                                                  z3.Not(last.isnone))),
+                ("this-worker-is-counted-in-the-occupancy", st.f["num_workers"].t >= 1)]
+
+    # ------------------------------------------------------------------ worker
+    def worker_entry(st, args):
+        oe = st.f["out_edges"]
+        out = [("out-edges-present", z3.And(z3.Not(oe.isnone), oe.val.len >= 1)),
+               ("policy-ready", selection_ready(st.f["out_edge_selection"], oe.val.len)),
+               ("delay-nonneg", args["processing_delay"].t >= 0),
+               ("threads-within-capacity", st.f["worker_thread_list"].len <= st.f["work_capacity"].t),
+               ("K-process: the worker starts in the instant it was spawned, holding the slot of its request", z3.BoolVal(True))]
+        out += edges_assumptions(st, "out_edges")
+        for nm, cl, props in lib.invariant("Machine", st, side="assume"):
+            out.append((nm, cl))
+        out += running(st)
+        return out
+
+    def worker_at_yield(ex, ordinal, ynode, value, st):
+        if ordinal == 0:
+            ok = isinstance(value, VTimeout)
+            ex.ctx.oblige("yield0.first-wait-is-the-processing-delay", st,
+                          [value.delay.t == ex.ctx.args["processing_delay"].t if ok else z3.BoolVal(False)], "yield",
+                          ynode.lineno, ("C08",))
+        for nm, cl, props in lib.invariant("Machine", st, side="prove"):
+            ex.ctx.oblige("yield%d.inv.%s" % (ordinal, nm), st, [cl], "yield-inv", ynode.lineno, props)
+
+    def worker_finish(ex, outcomes):
+        ctx = ex.ctx
+        for k, o in enumerate(outcomes):
+            if o.kind not in ("next", "return"):
+                continue
+            st = o.state
+            old = ctx.old
+            it = ctx.args["item"].t
+            puts = put_count(st, it)
+            allputs = st.ghost.get("puts", [])
+            ddis = st.f["stats.num_item_discarded"].t - old.f["stats.num_item_discarded"].t
+            dpro = st.f["stats.num_item_processed"].t - old.f["stats.num_item_processed"].t
+            blocking = old.f["blocking"].t
+            ob = lambda nm, g, props: ctx.oblige("exit%d.%s" % (k, nm), st, [g], "post", 0, props)
+            ob("item-pushed-once-or-discarded-and-counted", z3.And(puts + ddis == 1, puts >= 0, ddis >= 0), ("C03", "C09"))
+            ob("only-its-own-item-is-pushed", z3.And(*[p[0] == it for p in allputs]) if allputs else z3.BoolVal(True), ("C03",))
+            ob("processed-counter-counts-the-push", dpro == puts, ("C18",))
+            ob("blocking-machine-never-discards", z3.Implies(blocking, ddis == 0), ("C09",))
+            ws = [w[1] for w in st.ghost.get("waits", [])[1:] if w[1] is not None and w[2] != "VTimeout"]
+            ob("non-blocking-machine-never-waits-with-a-finished-item",
+               z3.Implies(z3.Not(blocking), z3.Not(z3.Or(*ws)) if ws else z3.BoolVal(True)), ("C09",))
+            for nm, cl in tokens_consumed_clauses(st):
+                ob(nm, cl, ("C10",))
+            ob("worker-slot-released", z3.BoolVal(bool(st.ghost.get("released"))), ("C08",))
+            # C15: the recorded selection is the edge the item really went to
+            H0, H1 = old.f["stats.out_edge_selection"], st.f["stats.out_edge_selection"]
+            oe = old.f["out_edges"].val
+            if allputs:
+                ob("routing-recorded-truthfully", z3.Implies(puts == 1, z3.And(
+                    H1.len == H0.len + 1, 0 <= H1.at(H0.len).t, H1.at(H0.len).t < oe.len,
+                    allputs[-1][1] == store_of_edge(st, oe.at(H1.at(H0.len).t).t))), ("C15",))
+            for nm, cl, props in lib.invariant("Machine", st, side="prove"):
+                ob("inv." + nm, cl, props)
+        return outcomes
+    w = FnContract(
+        "worker", [("item", ("obj", "item"), None), ("processing_delay", ("num", "real"), None),
+                   ("req_token", ("obj", "request"), None)],
+        is_generator=True, uses_inv=False, keeps_inv=False, entry_assume=worker_entry,
+        excs=[ExcCase("AssertionError", lambda c: z3.BoolVal(True), "user-index-rejected", unchanged=False, props=("C20", "C15"), may=True),
+              ExcCase("TypeError", lambda c: z3.BoolVal(True), "user-index-not-a-number", unchanged=False, props=("C20",), may=True)],
+        props=("C03", "C08", "C09", "C10", "C15", "C17", "C18", "C20"))
+    w.no_frame = True
+    w.finish = worker_finish
+    w.at_yield = worker_at_yield
+    w.shared_fields = shared
+    w.rely = rely
+    w.nshards = 8
+    w.slot_of = "req_token"
+    w.loops = {0: CancelLoop(lambda st: st.loc["chosen_put_event"].t), 1: ScanLoop("out_edges")}
+    C["Machine"]["worker"] = w
+
+    # ------------------------------------------------------------------ behaviour
+    bfields = ACC_FIELDS + ("in_edge_events", "chosen_event", "item_in_process", "stats.processing_delay",
+                            "stats.in_edge_selection")
+
+    def bhead(ex, st, mode):
+        ie, oe = st.f["in_edges"], st.f["out_edges"]
+        out = [("edges-present", z3.And(z3.Not(ie.isnone), ie.val.len >= 1, z3.Not(oe.isnone), oe.val.len >= 1)),
+               ("in-policy-ready", selection_ready(st.f["in_edge_selection"], ie.val.len)),
+               ("out-policy-ready", selection_ready(st.f["out_edge_selection"], oe.val.len)),
+               ("processing-delay-given", st.f["processing_delay"].tag != V.T_NONE),
+               ("threads-within-capacity", z3.And(st.f["worker_thread_list"].len >= 0,
+                                                  st.f["worker_thread_list"].len <= st.f["work_capacity"].t)),
+               ("state-rep-set", z3.Not(st.f["state_rep"].isnone)),
+               ("nothing-in-hand", st.f["item_in_process"].isnone)]
+        out += edges_assumptions(st, "in_edges")
+        return out
+
+    def bback(ex, head_f, st):
+        gets = st.ghost.get("gets", [])
+        sp = [x for x in st.ghost.get("spawned", []) if x[0] == "worker"]
+        out = []
+        if not gets:
+            out.append(("no-worker-without-an-item", z3.BoolVal(len(sp) == 0)))
+            return out
+        out.append(("pulls-exactly-one-item-per-round", z3.BoolVal(len(gets) == 1)))
+        out.append(("hands-it-to-exactly-one-worker", z3.BoolVal(len(sp) == 1)))
+        if len(gets) == 1 and len(sp) == 1:
+            item = gets[0][0]
+            a = sp[0][1]
+            ai = a["item"].val.t if isinstance(a["item"], VOpt) else a["item"].t
+            out.append(("the-worker-gets-the-pulled-item", ai == item))
+            out.append(("pull-happens-while-holding-a-worker-slot", z3.BoolVal(bool(st.ghost.get("slot_at_get")))))
+            out.append(("the-worker-inherits-that-slot", z3.Or(*[a["req_token"].t == s_ for s_ in st.ghost.get("slots", [])])
+                        if st.ghost.get("slots") else z3.BoolVal(False)))
+            # C08: the delay is drawn exactly once per item and is the worker's delay
+            d = head_f["processing_delay"] if "processing_delay" in head_f else st.f["processing_delay"]
+            cs = [c_ for c_ in st.ghost.get("consults", []) if True]
+            drawn = z3.Or(d.tag == V.T_GEN, d.tag == V.T_FUNC)
+            cnt = z3.Sum([z3.If(z3.And(c_[3], c_[1] == d.oid), 1, 0) for c_ in cs]) if cs else z3.IntVal(0)
+            out.append(("processing-delay-drawn-exactly-once", z3.Implies(drawn, cnt == 1)))
+            # C15: the recorded in-edge is the edge the item was taken from
+            H0, H1 = head_f["stats.in_edge_selection"], st.f["stats.in_edge_selection"]
+            ie = st.f["in_edges"].val
+            out.append(("in-edge-recorded-truthfully", z3.And(
+                H1.len == H0.len + 1, 0 <= H1.at(H0.len).t, H1.at(H0.len).t < ie.len,
+                gets[0][1] == store_of_edge(st, ie.at(H1.at(H0.len).t).t))))
+        return out
+
+    def b_at_yield(ex, ordinal, ynode, value, st):
+        rep = st.f["state_rep"]
+        # during set-up the accounting invariant is not yet established
+        for nm, cl, props in lib.invariant("Machine", st, side="prove"):
+            ex.ctx.oblige("yield%d.inv.%s" % (ordinal, nm), st, [cl], "yield-inv", ynode.lineno, props)
+    b = FnContract(
+        "behaviour", [], is_generator=True, uses_inv=False, keeps_inv=False,
+        entry_assume=lambda st, args: edges_assumptions(st, "in_edges") + edges_assumptions(st, "out_edges") + [
+            ("A-start: the node is created at time 0 with all totals at 0", z3.And(
+                st.now == 0, st.f["stats.last_state_change_time"].isnone, st.f["time_last_occupancy_change"].t == 0,
+                st.f["num_workers"].t == 0, st.f["worker_thread_list"].len == 0,
+                st.f["time_per_work_occupancy"].len == st.f["work_capacity"].t + 1,
+                *[st.f[TT + k].t == 0 for k in list(MIRROR) + ["SETUP_STATE"]])),
+            ("nothing-in-hand", st.f["item_in_process"].isnone),
+            ("A-resource: worker_thread has capacity work_capacity and no users yet", z3.And(
+                sel(st, "res_capacity", st.f["worker_thread"].t) == st.f["work_capacity"].t,
+                sel(st, "res_users", st.f["worker_thread"].t) == 0))],
+        excs=[ExcCase("AssertionError", lambda c: z3.BoolVal(True), "start-up-or-user-value-rejected", unchanged=False,
+                      props=("C20",), may=True),
+              ExcCase("ValueError", lambda c: z3.BoolVal(True), "start-up-rejected", unchanged=False, props=("C20",), may=True),
+              ExcCase("TypeError", lambda c: z3.BoolVal(True), "user-value-not-a-number", unchanged=False, props=("C20",), may=True)],
+        props=("C03", "C06", "C08", "C10", "C15", "C17", "C20"))
+    b.has_normal_exit = False
+    b.no_frame = True
+    b.at_yield = b_at_yield
+    b.shared_fields = tuple(f for f in ACC_FIELDS if f not in ("state_rep",))
+    b.rely = lambda st0, st1: [x for x in rely(st0, st1) if x[0] not in ('machine-is-past-set-up', 'this-worker-is-counted-in-the-occupancy')]
+    b.nshards = 8
+    b.loops = {0: ProcLoop(lib, "Machine", bfields, back=bback, head=bhead, props=("C03", "C08", "C10", "C15"),
+                           heaps=("thread_state", "item_to_put", "selector_kind", "edge_cls")),
+               1: IndexMatchLoop("in_edge_events"),
+               2: CancelLoop(lambda st: st.f["chosen_event"].val.t)}
+    C["Machine"]["behaviour"] = b
